@@ -136,7 +136,7 @@ Proof.
             match x with
             | VArr xs =>
               if two63 <=? zlen xs then OutOfFuel else
-              match py_slice xs a b c with
+              match py_slice xs a b (cjoin c) with
               | Some ys => ys0 <- mapM (rhs_eval ord r) ys ;; Ok (VArr (drop_nulls ys0))
               | None => Err EEval
               end
@@ -144,7 +144,7 @@ Proof.
             end).
     apply np_bind; [apply IHl; destruct l; [left; cbn; lia | right; reflexivity]|].
     intros x _. destruct x; try discriminate. destruct (two63 <=? zlen l0); [discriminate|].
-    destruct (py_slice l0 a b c); [|discriminate]. apply Hproj. destruct r; [right; reflexivity | left; cbn; lia | left; cbn; lia].
+    destruct (py_slice l0 a b (cjoin c)); [|discriminate]. apply Hproj. destruct r; [right; reflexivity | left; cbn; lia | left; cbn; lia].
   - change (eval ord (EListProj l r) v)
       with (x <- lhs_eval ord l v ;;
             match x with
